@@ -291,7 +291,48 @@ class World:
             pts = pts[pts != cp]
             cls = getattr(fem, t)
             return cls(f, points=pts, centerpoint=cp, skip=tuple(it.get("skip", (False,) * self.mesh.dim)), multiplier=it.get("multiplier", 1e3))
+        if t == "FormItem":
+            return self._form_item(it)
         raise ValueError(t)
+
+    def _form_item(self, it):
+        """A linear-elastic-like body written with the Form expression API: residual
+        int grad(v) : C : grad(u) * scale, tangent int grad(v) : C : grad(du) * scale."""
+        from felupe.math import ddot, grad
+
+        f = self.field
+        d = f[0].dim
+        rng = np.random.default_rng(it["C_seed"])
+        eye = np.eye(d)
+        C = it.get("mu", 1.0) * (np.einsum("ik,jl->ijkl", eye, eye) + np.einsum("il,jk->ijkl", eye, eye)) + it.get("lmbda", 1.0) * np.einsum("ij,kl->ijkl", eye, eye)
+        R = 0.1 * rng.normal(size=(d, d, d, d))
+        C = C + 0.5 * (R + R.transpose(2, 3, 0, 1))
+        C = C.reshape(d, d, d, d, 1, 1)
+        holder = {}
+
+        def bilinear():
+            def a(v, u, scale=1.0, **kwargs):
+                return ddot(grad(v), ddot(C, grad(u), mode=(4, 2))) * scale
+
+            return [a]
+
+        def linear():
+            def L(v, scale=1.0, **kwargs):
+                H = holder["item"].field[0].grad()
+                return ddot(grad(v), ddot(C, H, mode=(4, 2))) * scale
+
+            return [L]
+
+        kwargs = {"scale": it.get("scale", 1.0)}
+        item = fem.FormItem(
+            bilinearform=fem.Form(v=f, u=f)(bilinear),
+            linearform=fem.Form(v=f)(linear),
+            sym=bool(it.get("sym", False)),
+            kwargs=kwargs,
+            ramp_item=0,
+        )
+        holder["item"] = item
+        return item
 
     def _points(self, sel):
         """Point selection: explicit list, or {'axis': i, 'at': 'min'|'max'|'extra'}."""
@@ -301,7 +342,8 @@ class World:
         if sel.get("at") == "extra":
             return np.array([self.mesh.npoints - 1])
         ax = sel["axis"]
-        coord = pts[:, ax].max() if sel["at"] == "max" else pts[:, ax].min()
+        body = pts[:-1] if self.doc["mesh"].get("extra_point") else pts
+        coord = body[:, ax].max() if sel["at"] == "max" else body[:, ax].min()
         ids = np.arange(self.mesh.npoints)[np.isclose(pts[:, ax], coord)]
         if self.doc["mesh"].get("extra_point"):
             ids = ids[ids != self.mesh.npoints - 1]
@@ -323,13 +365,16 @@ class World:
         fld = self.field[c.get("field", 0)]
         fmesh = fld.region.mesh
         kw = {}
+        bpts = fmesh.points
+        if self.doc["mesh"].get("extra_point") and fmesh is self.mesh:
+            bpts = bpts[:-1]
         for ax, key in enumerate(("fx", "fy", "fz")):
             if key in c:
                 v = c[key]
                 if v == "min":
-                    v = float(fmesh.points[:, ax].min())
+                    v = float(bpts[:, ax].min())
                 elif v == "max":
-                    v = float(fmesh.points[:, ax].max())
+                    v = float(bpts[:, ax].max())
                 kw[key] = v
         if "skip" in c:
             kw["skip"] = tuple(c["skip"])
